@@ -1,4 +1,6 @@
-import EaModel.Properties.SchedCommon
+import EaModel.Properties.C01
+import EaModel.Properties.C09
+import EaModel.Lemmas.Clean
 /-!
 # C10 — failures in user code stay isolated
 -/
@@ -57,5 +59,54 @@ theorem trigger_failure_no_reexec (setT : St → St) (s : St) (j : Nat) (due : I
 #guard ((runOps (initSt {} 0) [.create 1 none (.at (.interval (some 0) 10 none)) [] [1],
     .create 2 none (.at (.interval (some 5) 10 none)) [] [], .sleep 30]).log.reverse.filterMap
   fun e => match e with | .exec j t _ => some (j, t) | _ => none) == [(2, 5), (1, 10), (2, 15), (2, 25)]
+
+
+/-- the results (raised errors) of the operations of a history, in order -/
+def results (s : St) : List Op → List (Option Err)
+  | [] => []
+  | op :: ops => (step s op).2 :: results (step s op).1 ops
+
+theorem runOps_clean (s : St) (ops : List Op) :
+    (runOps s ops).clean = runOps s.clean (ops.map Op.clean) ∧ results s ops = results s.clean (ops.map Op.clean) := by
+  induction ops generalizing s with
+  | nil => exact ⟨rfl, rfl⟩
+  | cons op ops ih =>
+    obtain ⟨h1, h2⟩ := step_clean s op
+    obtain ⟨i1, i2⟩ := ih (step s op).1
+    refine ⟨?_, ?_⟩
+    · show (runOps (step s op).1 ops).clean = runOps (step s.clean op.clean).1 (ops.map Op.clean)
+      rw [i1, h1]
+    · show (step s op).2 :: results (step s op).1 ops =
+        (step s.clean op.clean).2 :: results (step s.clean op.clean).1 (ops.map Op.clean)
+      rw [i2, h1, h2]
+
+/-- Failures in user code have no other effect than their report: take any history in which callables and
+callbacks raise (any jobs, any invocations), and the same history with those failures removed (`Op.clean`:
+no failing executions are injected, no callback is made to fail). Every operation returns / raises the same in
+both, and the final states agree in everything — job status and run times, queue, armed timer, job store,
+clock, every execution and every callback invocation logged, in order — except for the reports themselves
+(`St.clean` drops the `CallableError` / `CallbackError` reports from the log and forgets the injection). In
+particular the failing job keeps its normal schedule, other due jobs execute as they would, and the scheduler
+stays armed. (Failures while the next run is computed are a different matter: `trigger_failure_no_reexec`.) -/
+theorem failures_have_no_other_effect (env : Env) (now : Int) (en : Bool) (ops : List Op) :
+    (runOps (initSt env now en) ops).clean = runOps (initSt env now en) (ops.map Op.clean) ∧
+    results (initSt env now en) ops = results (initSt env now en) (ops.map Op.clean) := by
+  have h := runOps_clean (initSt env now en) ops
+  have e : (initSt env now en).clean = initSt env now en := rfl
+  rw [e] at h
+  exact h
+
+/-- what `clean` keeps: everything but the injection and the reports -/
+theorem clean_keeps (s : St) :
+    s.clean.queue = s.queue ∧ s.clean.timer = s.timer ∧ s.clean.store = s.store ∧ s.clean.now = s.now ∧
+    s.clean.enabled = s.enabled ∧
+    (∀ j, (s.clean.job j).status = (s.job j).status ∧ (s.clean.job j).nextRun = (s.job j).nextRun ∧
+      (s.clean.job j).execs = (s.job j).execs) ∧
+    s.clean.log = s.log.filter (fun e => !isInj e) :=
+  ⟨rfl, rfl, rfl, rfl, rfl, fun _ => ⟨rfl, rfl, rfl⟩, rfl⟩
+
+-- non-vacuity: a failing callable and a failing callback are reported, nothing else differs
+#guard (runOps (initSt {} 0) [.create 1 none (.countdown 5) [0] [], .cbReg false 1 7, .cbFails 7, .reset 1, .sleep 10]).log.length
+  == (runOps (initSt {} 0) [.create 1 none (.countdown 5) [] [], .cbReg false 1 7, .reset 1, .sleep 10]).log.length + 3
 
 end Ea.C10
